@@ -529,6 +529,7 @@ package larking
 //@   requires s != nil && s.method != nil && s.method.desc != nil && s.r != nil && c != nil
 //@   requires Buffered(s.rbuf, s.r, g) && len(b) == 0 && s.opts.maxReceiveMessageSize > 0
 //@   requires cap(b) == 0 || base(b) != base(s.rbuf)
+//@   witness verifWitnessReadMsg
 //@   modifies F$streamHTTP.recvCount, F$streamHTTP.rEOF, F$streamHTTP.rbuf, E$uint8, G$rd.pos
 //@   ensures [latched] old(s.rEOF) ==> err == io.EOF && len(msg) == 0
 //@   ensures [size] err == nil ==> len(msg) <= s.opts.maxReceiveMessageSize
